@@ -242,8 +242,11 @@ Inductive aop :=
 | OIterNext (c : nat) (islot : nat)                           (* kdump_attr_iter_next *)
 | OClone (from : nat) (xlat : bool)                           (* kdump_clone *)
 | OFree (c : nat)                                             (* kdump_free (a clone) *)
-| OClearVolatile                                              (* re-open: clear_volatile_attrs *)
-| ODerive (p : path) (v : aval).                              (* the format sets a value it read from the file *)
+| OIterSet (c : nat) (islot : nat) (bypath : bool) (ty : atype) (v : aval)
+    (* set or clear the attribute the iterator stands on: kdump_attr_ref_set(&iter.pos, ...),
+       or kdump_set_attr with the path <directory>.<iter.key> *)
+| OClearVolatile (c : nat)                                    (* re-open through context c: clear_volatile_attrs *)
+| ODerive (c : nat) (p : path) (v : aval).                    (* the format sets a value it read from the file *)
 
 Inductive aout :=
 | AStatus (st : status)
@@ -456,14 +459,51 @@ Definition astep (o : aop) (s : astate) : aout * astate :=
               refs := refs s; iters := iters s |})
       | _, _ => (ABad, s)
       end
-  | OClearVolatile =>
-      (AStatus KDUMP_OK,
-       {| base := fst (clear_volatile (base s)); overlays := overlays s; ctxs := ctxs s;
-          refs := refs s; iters := iters s |})
-  | ODerive p v =>
-      match node_at p (base s) with
-      | Some _ => (AStatus KDUMP_OK, update_addr (O, p) (store_default v) true s)
-      | None => (AStatus ERR_NOKEY, s)
+  | OIterSet c islot bypath ty v =>
+      match ctx_dict c s, nth_error (iters s) islot with
+      | Some _, None | Some _, Some None => (ANoIter, s)
+      | Some d, Some (Some (a, Some i)) =>
+          match addr_node a s with
+          | Some n =>
+              match nth_error (akids n) i with
+              | Some ch =>
+                  if bypath then
+                    match resolve d false (snd a ++ [akey ch]) s with
+                    | None => (AStatus ERR_NODATA, s)
+                    | Some a' => let '(st, s') := check_set a' ty v s in (AStatus st, s')
+                    end
+                  else let '(st, s') := check_set (fst a, snd a ++ [akey ch]) ty v s in (AStatus st, s')
+              | None => (ABad, s)
+              end
+          | None => (ABad, s)
+          end
+      | Some _, Some (Some (_, None)) => (ANoIter, s)          (* at the end: no position *)
+      | None, _ => (ABad, s)
+      end
+  | OClearVolatile c =>
+      (* clear_volatile on every dictionary of the context's fallback chain *)
+      match ctx_dict c s with
+      | None => (ABad, s)
+      | Some d =>
+          let ovs := match d with
+                     | S k => match nth_error (overlays s) k with
+                              | Some (Some ov) => replace_nth k (Some (fst (clear_volatile ov))) (overlays s)
+                              | _ => overlays s
+                              end
+                     | O => overlays s
+                     end in
+          (AStatus KDUMP_OK,
+           {| base := fst (clear_volatile (base s)); overlays := ovs; ctxs := ctxs s;
+              refs := refs s; iters := iters s |})
+      end
+  | ODerive c p v =>
+      match ctx_dict c s with
+      | None => (ABad, s)
+      | Some d =>
+          match resolve d false p s with
+          | Some a => (AStatus KDUMP_OK, update_addr a (store_default v) true s)
+          | None => (AStatus ERR_NOKEY, s)
+          end
       end
   end.
 
